@@ -25,7 +25,9 @@ import (
 
 	authenticationv1 "k8s.io/api/authentication/v1"
 	v1 "k8s.io/api/core/v1"
+	apierrors "k8s.io/apimachinery/pkg/api/errors"
 	"k8s.io/apimachinery/pkg/runtime"
+	"k8s.io/apimachinery/pkg/runtime/schema"
 	"k8s.io/apiserver/pkg/audit"
 	"k8s.io/apiserver/pkg/authentication/serviceaccount"
 	"k8s.io/apiserver/pkg/authentication/user"
@@ -50,7 +52,8 @@ func WithNoLoggingImpersonation(handler http.Handler, a authorizer.Authorizer, s
 		impersonationRequests, err := buildImpersonationRequests(req.Header)
 		if err != nil {
 			klog.V(4).Infof("%v", err)
-			responsewriters.InternalError(w, req, err)
+			// answer with a Status like every other request the gateway terminates (not text/plain)
+			responsewriters.ErrorNegotiated(apierrors.NewInternalError(err), s, schema.GroupVersion{}, w, req)
 			return
 		}
 		if len(impersonationRequests) == 0 {
